@@ -439,6 +439,7 @@ def mon_c12(ix: Index):
     out = []
     n = 0
     retries: dict[str, int] = {}
+    decided: dict[tuple, dict] = {}
     for a in ix.applied:
         u = a.get("u")
         if u and u.get("Type") == "STEP" and u.get("Action") == "RETRY" and u.get("SubType") == "Step":
@@ -456,6 +457,17 @@ def mon_c12(ix: Index):
                 out.append(V("C12", "C12/strategy-attempt-count-wrong", "strategy for %s consulted with %d, backend has recorded %d retries" % (e["path"], e["attempts"], want - 1), e["i"]))
         if e["kind"] == "fn_enter" and e.get("fnkind") in ("step", "submitter") and e.get("st") == "PENDING":
             out.append(V("C12", "C12/attempt-before-timer", "%s entered while PENDING" % e["path"], e["i"]))
+        # the decision of the strategy is on record before the step parks / raises
+        if e["kind"] == "strategy":
+            decided[(e["path"], e["inv"])] = e
+        elif e["kind"] == "susp" and e.get("opkind") == "step" and (e["path"], e["inv"]) in decided:
+            d = decided.pop((e["path"], e["inv"]))
+            if d.get("retry") and e.get("st") not in ("PENDING", "READY"):
+                out.append(V("C12", "C12/parked-before-retry-recorded", "%s suspended for its retry while the backend still holds it %s (no accepted RETRY record)" % (e["path"], e.get("st")), e["i"]))
+        elif e["kind"] == "exc" and e.get("opkind") == "step" and (e["path"], e["inv"]) in decided:
+            d = decided.pop((e["path"], e["inv"]))
+            if not d.get("retry") and _is_final_error(e) and e.get("st") != "FAILED":
+                out.append(V("C12", "C12/raised-before-failure-recorded", "%s raised its final error while the backend holds it %s" % (e["path"], e.get("st")), e["i"]))
     for path, node in ix.nodes.items():
         if node["k"] != "step":
             continue
